@@ -1182,10 +1182,22 @@ htp_status_t htp_connp_RES_FINALIZE(htp_connp_t *connp) {
     }
 
     //unread last end of line so that RES_LINE works
-    if (connp->out_current_read_offset < (int64_t)bytes_left) {
-        connp->out_current_read_offset=0;
-    } else {
-        connp->out_current_read_offset-=bytes_left;
+    int64_t unread = (int64_t)bytes_left;
+    if (connp->out_current_read_offset < unread) {
+        unread = connp->out_current_read_offset;
+    }
+    connp->out_current_read_offset -= unread;
+    if (connp->out_buf != NULL) {
+        // The bytes we have just unread were also appended to the buffer (the line
+        // started in an earlier chunk); they are going to be read again, so take
+        // them out, leaving only what can no longer be re-read.
+        if ((size_t)unread >= connp->out_buf_size) {
+            free(connp->out_buf);
+            connp->out_buf = NULL;
+            connp->out_buf_size = 0;
+        } else {
+            connp->out_buf_size -= unread;
+        }
     }
     if (connp->out_current_read_offset < connp->out_current_consume_offset) {
         connp->out_current_consume_offset=connp->out_current_read_offset;
